@@ -9,7 +9,6 @@ CONSTANTS
   StatsThread = TRUE
   OrReacts = FALSE
   EnvLite = TRUE
-  AsIs_Spin = FALSE
   Mut = "none"
 SPECIFICATION Spec
 INVARIANTS TypeOK
